@@ -54,7 +54,8 @@ def classify(doc):
 def poison(rng, doc):
     """plants exactly one inexpressible thing; returns its label"""
     kind = rng.choice(['list', 'table', 'nlsemi', 'char-value', 'char-name', 'char-code', 'del-value', 'vt-value',
-                       'char-loop-name', 'char-loop-name', 'char-frame-code', 'char-loop-value'])
+                       'char-loop-name', 'char-loop-name', 'char-frame-code', 'char-loop-value', 'list-in-loop', 'table-in-loop',
+                       'nlsemi-in-loop', 'del-in-loop'])
     blk = rng.choice(doc)
     if kind == 'list':
         blk['entries'].append(('item', '_poison', ('list', (('char', 'a', False),))))
@@ -78,6 +79,14 @@ def poison(rng, doc):
         blk['entries'].append(('frame', {'code': 'fr\u00e4me', 'entries': [('item', '_a', ('char', 'v', False))]}))
     elif kind == 'char-loop-value':
         blk['entries'].append(('loop', ['_lq1', '_lq2'], [[('char', 'ok', True), ('char', 'na\u00efve', True)], [('char', 'x', True), ('char', 'y', True)]]))
+    elif kind in ('list-in-loop', 'table-in-loop', 'nlsemi-in-loop', 'del-in-loop'):
+        # the inexpressible value as a loop cell, in the first, a middle or the last packet and column
+        bad = {'list-in-loop': ('list', (('char', 'a', False), ('char', 'b c', True))), 'table-in-loop': ('table', (('k', ('numb', '1', False)),)),
+               'nlsemi-in-loop': ('char', 'a\n;b\nc', True), 'del-in-loop': ('char', 'a\x7fb', True)}[kind]
+        n, m = rng.randint(1, 3), rng.randint(1, 3)
+        rows = [[('char', 'v%d%d' % (r, c), True) for c in range(n)] for r in range(m)]
+        rows[rng.randrange(m)][rng.randrange(n)] = bad
+        blk['entries'].append(('loop', ['_lr%d_%d' % (len(blk['entries']), j) for j in range(n)], rows))
     elif kind == 'del-value':
         blk['entries'].append(('item', '_poison', ('char', 'a\x7fb', True)))
     else:
